@@ -322,4 +322,204 @@ theorem byteChar_injective : Function.Injective (fun b : UInt8 => Char.ofNat b.t
   rw [← hx, ← hy]
   exact congrArg Char.toNat hxy
 
+-- Legacy (UUID) identifiers are rejected as names ---------------------------------------
+
+theorem hex_range (c : Char) (h : isLowerHex c = true) :
+    (48 ≤ c.toNat ∧ c.toNat ≤ 57) ∨ (97 ≤ c.toNat ∧ c.toNat ≤ 102) := by
+  simp only [isLowerHex, Bool.or_eq_true, Bool.and_eq_true, decide_eq_true_eq, Char.le_def,
+    UInt32.le_iff_toNat_le] at h
+  have e : c.toNat = c.val.toNat := rfl
+  rw [e]
+  simpa using h
+
+theorem hex_char (c : Char) (h : isLowerHex c = true) :
+    String.utf8EncodeChar c = [c.val.toUInt8] ∧ isHexByte c.val.toUInt8 = true := by
+  have hr := hex_range c h
+  have e : c.toNat = c.val.toNat := rfl
+  constructor
+  · apply String.utf8EncodeChar_eq_singleton
+    simp only [Char.utf8Size]
+    have : c.val ≤ 127 := by rw [UInt32.le_iff_toNat_le]; simp; omega
+    simp [this]
+  · simp only [isHexByte, Bool.or_eq_true, Bool.and_eq_true, decide_eq_true_eq, UInt8.le_iff_toNat_le]
+    have : c.val.toUInt8.toNat = c.toNat := by
+      rw [e, UInt32.toNat_toUInt8]; omega
+    rw [this]
+    simp
+    omega
+
+theorem hex_class (extra : Char → CharClass) (c : Char) (h : isLowerHex c = true) :
+    (classify extra c = .letter ∨ classify extra c = .number) ∧ c ≠ '-' := by
+  have hr := hex_range c h
+  have e : c.toNat = c.val.toNat := rfl
+  constructor
+  · simp only [classify, Char.le_def, UInt32.le_iff_toNat_le]
+    have h128 : c.toNat < 128 := by omega
+    simp only [h128, if_true]
+    rcases hr with hr | hr
+    · right
+      have : ¬ ((97 ≤ c.toNat ∧ c.toNat ≤ 122) ∨ (65 ≤ c.toNat ∧ c.toNat ≤ 90)) := by omega
+      have h2 : 48 ≤ c.toNat ∧ c.toNat ≤ 57 := by omega
+      simp only [← e, show 'a'.val.toNat = 97 from rfl, show 'z'.val.toNat = 122 from rfl, show 'A'.val.toNat = 65 from rfl, show 'Z'.val.toNat = 90 from rfl, show '0'.val.toNat = 48 from rfl, show '9'.val.toNat = 57 from rfl]
+      rw [if_neg this, if_pos h2]
+    · left
+      have : (97 ≤ c.toNat ∧ c.toNat ≤ 122) ∨ (65 ≤ c.toNat ∧ c.toNat ≤ 90) := by omega
+      simp only [← e, show 'a'.val.toNat = 97 from rfl, show 'z'.val.toNat = 122 from rfl, show 'A'.val.toNat = 65 from rfl, show 'Z'.val.toNat = 90 from rfl]
+      rw [if_pos this]
+  · intro hc
+    subst hc
+    simp at hr
+
+def HexOrDash (c : Char) : Prop := isLowerHex c = true ∨ c = '-'
+
+theorem nameLoop_hex (extra : Char → CharClass) (s : List Char) (h : ∀ c ∈ s, HexOrDash c) :
+    ∀ first dash, (nameLoop extra s first dash).1 = .notLetterFirst ∨
+      nameLoop extra s first dash = (.ok, dash || s.contains '-') := by
+  induction s with
+  | nil => intro first dash; right; simp [nameLoop]
+  | cons r rest ih =>
+    intro first dash
+    have ih' := ih (fun c hc => h c (by simp [hc]))
+    simp only [nameLoop]
+    rcases h r (by simp) with hr | hr
+    · obtain ⟨hc, hnd⟩ := hex_class extra r hr
+      have hne : ¬ ('-' = r) := fun e => hnd e.symm
+      rcases hc with hl | hn
+      · rcases ih' false dash with a | a
+        · left; simp [hl, a]
+        · right; simp [hl, a, List.contains_cons, hne]
+      · have hnl : classify extra r ≠ .letter := by rw [hn]; decide
+        by_cases hf : first = true
+        · left; simp [hnl, hf]
+        · rcases ih' false dash with a | a
+          · left; simp [hnl, hf, hn, a]
+          · right; simp [hnl, hf, hn, a, List.contains_cons, hne]
+    · subst hr
+      have c1 : classify extra '-' ≠ .letter := by simp [classify]
+      have c2 : classify extra '-' ≠ .number := by simp [classify]
+      by_cases hf : first = true
+      · left; simp [c1, hf]
+      · rcases ih' false true with a | a
+        · left; simp [c1, c2, hf, a]
+        · right; simp [c1, c2, hf, a, List.contains_cons]
+
+theorem utf8_hex (s : List Char) (h : ∀ c ∈ s, HexOrDash c) : utf8 s = s.map fun c => c.val.toUInt8 := by
+  induction s with
+  | nil => simp [utf8]
+  | cons r rest ih =>
+    have ih' := ih (fun c hc => h c (by simp [hc]))
+    simp only [utf8, List.flatMap_cons, List.map_cons] at ih' ⊢
+    rw [ih']
+    rcases h r (by simp) with hr | hr
+    · rw [(hex_char r hr).1]; simp
+    · subst hr
+      have : String.utf8EncodeChar '-' = ['-'.val.toUInt8] := by decide
+      rw [this]; simp
+
+theorem len4' {α} (l : List α) (h : l.length = 4) : ∃ a0 a1 a2 a3, l = [a0, a1, a2, a3] := by
+  match l, h with
+  | [a0, a1, a2, a3], _ => exact ⟨_, _, _, _, rfl⟩
+
+theorem len8' {α} (l : List α) (h : l.length = 8) :
+    ∃ a0 a1 a2 a3 a4 a5 a6 a7, l = [a0, a1, a2, a3, a4, a5, a6, a7] := by
+  match l, h with
+  | [a0, a1, a2, a3, a4, a5, a6, a7], _ => exact ⟨_, _, _, _, _, _, _, _, rfl⟩
+
+theorem len12' {α} (l : List α) (h : l.length = 12) :
+    ∃ a0 a1 a2 a3 a4 a5 a6 a7 a8 a9 a10 a11, l = [a0, a1, a2, a3, a4, a5, a6, a7, a8, a9, a10, a11] := by
+  match l, h with
+  | [a0, a1, a2, a3, a4, a5, a6, a7, a8, a9, a10, a11], _ => exact ⟨_, _, _, _, _, _, _, _, _, _, _, _, rfl⟩
+
+theorem split_dash (l : List Char) (n : Nat) (h2 : (l.drop n).head? = some '-') :
+    l = l.take n ++ '-' :: l.drop (n + 1) := by
+  have e := (List.take_append_drop n l).symm
+  cases hd : l.drop n with
+  | nil => rw [hd] at h2; simp at h2
+  | cons x t =>
+    rw [hd] at h2
+    simp at h2
+    subst h2
+    have : l.drop (n + 1) = t := by
+      rw [← List.drop_drop, hd]; rfl
+    rw [this, ← hd]
+    exact e
+
+/-- The shape a string matching the legacy pattern has. -/
+theorem legacy_shape (s : List Char) (h : legacyMatches s = true) :
+    ∃ g1 g2 g3 g4 g5 : List Char, s = g1 ++ '-' :: (g2 ++ '-' :: (g3 ++ '-' :: (g4 ++ '-' :: g5))) ∧
+      g1.length = 8 ∧ g2.length = 4 ∧ g3.length = 4 ∧ g4.length = 4 ∧ g5.length = 12 ∧
+      g1.all isLowerHex = true ∧ g2.all isLowerHex = true ∧ g3.all isLowerHex = true ∧
+      g4.all isLowerHex = true ∧ g5.all isLowerHex = true := by
+  simp only [legacyMatches, hexGroups, Bool.and_eq_true, decide_eq_true_eq] at h
+  obtain ⟨l1, a1, d1, l2, a2, d2, l3, a3, d3, l4, a4, d4, l5, a5⟩ := h
+  refine ⟨s.take 8, (s.drop 9).take 4, ((s.drop 9).drop 5).take 4, (((s.drop 9).drop 5).drop 5).take 4,
+    (((s.drop 9).drop 5).drop 5).drop 5, ?_, l1, l2, l3, l4, l5, a1, a2, a3, a4, a5⟩
+  have e1 := split_dash s 8 d1
+  have e2 := split_dash (s.drop 9) 4 d2
+  have e3 := split_dash ((s.drop 9).drop 5) 4 d3
+  have e4 := split_dash (((s.drop 9).drop 5).drop 5) 4 d4
+  rw [← e4, ← e3, ← e2, ← e1]
+
+theorem hexb (c : Char) (h : isLowerHex c = true) : isHexByte c.toUInt8 = true := (hex_char c h).2
+
+theorem uuidParse_legacy (g1 g2 g3 g4 g5 : List Char)
+    (l1 : g1.length = 8) (l2 : g2.length = 4) (l3 : g3.length = 4) (l4 : g4.length = 4) (l5 : g5.length = 12)
+    (a1 : g1.all isLowerHex = true) (a2 : g2.all isLowerHex = true) (a3 : g3.all isLowerHex = true)
+    (a4 : g4.all isLowerHex = true) (a5 : g5.all isLowerHex = true) :
+    uuidParseOk ((g1 ++ '-' :: (g2 ++ '-' :: (g3 ++ '-' :: (g4 ++ '-' :: g5)))).map fun c => c.val.toUInt8) = true := by
+  obtain ⟨x0, x1, x2, x3, x4, x5, x6, x7, rfl⟩ := len8' g1 l1
+  obtain ⟨y0, y1, y2, y3, rfl⟩ := len4' g2 l2
+  obtain ⟨z0, z1, z2, z3, rfl⟩ := len4' g3 l3
+  obtain ⟨w0, w1, w2, w3, rfl⟩ := len4' g4 l4
+  obtain ⟨v0, v1, v2, v3, v4, v5, v6, v7, v8, v9, v10, v11, rfl⟩ := len12' g5 l5
+  simp only [List.all_cons, List.all_nil, Bool.and_true, Bool.and_eq_true] at a1 a2 a3 a4 a5
+  obtain ⟨hx0, hx1, hx2, hx3, hx4, hx5, hx6, hx7⟩ := a1
+  obtain ⟨hy0, hy1, hy2, hy3⟩ := a2
+  obtain ⟨hz0, hz1, hz2, hz3⟩ := a3
+  obtain ⟨hw0, hw1, hw2, hw3⟩ := a4
+  obtain ⟨hv0, hv1, hv2, hv3, hv4, hv5, hv6, hv7, hv8, hv9, hv10, hv11⟩ := a5
+  have d : '-'.toUInt8 = 0x2d := by decide
+  simp [uuidParseOk, xtobOk, List.getD, d,
+    hexb _ hx0, hexb _ hx1, hexb _ hx2, hexb _ hx3,
+    hexb _ hx4, hexb _ hx5, hexb _ hx6, hexb _ hx7,
+    hexb _ hy0, hexb _ hy1, hexb _ hy2, hexb _ hy3,
+    hexb _ hz0, hexb _ hz1, hexb _ hz2, hexb _ hz3,
+    hexb _ hw0, hexb _ hw1, hexb _ hw2, hexb _ hw3,
+    hexb _ hv0, hexb _ hv1, hexb _ hv2, hexb _ hv3,
+    hexb _ hv4, hexb _ hv5, hexb _ hv6, hexb _ hv7,
+    hexb _ hv8, hexb _ hv9, hexb _ hv10, hexb _ hv11]
+
+theorem names_reject_legacy (extra : Char → CharClass) (s : List Char) (h : legacyMatches s = true) :
+    ensureNameValid extra s = .notLetterFirst ∨ ensureNameValid extra s = .isUUID := by
+  obtain ⟨g1, g2, g3, g4, g5, rfl, l1, l2, l3, l4, l5, a1, a2, a3, a4, a5⟩ := legacy_shape s h
+  have hall : ∀ c ∈ g1 ++ '-' :: (g2 ++ '-' :: (g3 ++ '-' :: (g4 ++ '-' :: g5))), HexOrDash c := by
+    intro c hc
+    simp only [List.mem_append, List.mem_cons] at hc
+    simp only [List.all_eq_true] at a1 a2 a3 a4 a5
+    rcases hc with hc | rfl | hc | rfl | hc | rfl | hc | rfl | hc
+    · exact Or.inl (a1 c hc)
+    · exact Or.inr rfl
+    · exact Or.inl (a2 c hc)
+    · exact Or.inr rfl
+    · exact Or.inl (a3 c hc)
+    · exact Or.inr rfl
+    · exact Or.inl (a4 c hc)
+    · exact Or.inr rfl
+    · exact Or.inl (a5 c hc)
+  have hloop := nameLoop_hex extra _ hall true false
+  have hutf := utf8_hex _ hall
+  have hu := uuidParse_legacy g1 g2 g3 g4 g5 l1 l2 l3 l4 l5 a1 a2 a3 a4 a5
+  unfold ensureNameValid
+  rcases hloop with a | a
+  · left
+    cases hr : nameLoop extra (g1 ++ '-' :: (g2 ++ '-' :: (g3 ++ '-' :: (g4 ++ '-' :: g5)))) true false with
+    | mk e d =>
+      rw [hr] at a
+      simp only at a
+      subst a
+      rfl
+  · right
+    rw [a, hutf, hu]
+    simp
+
 end Mutagen.Proofs.Identifier
